@@ -53,7 +53,8 @@ enum {
     VE_RACY_READ,      /* (pnum, what, addr)          declared racy-by-design read       */
     VE_THREAD_EXIT,    /* (pnum, info, 0)             worker leaves the main loop        */
     VE_PRESET_MAP,     /* (n, nextpos, map_in_sup)    static/dynamic L-supernode slot map built */
-    VE_DYN_SETMAP      /* (jcol, num, &nextlu)        dynamic mode: slot [nextlu,nextlu+num) for H-supernode jcol */
+    VE_DYN_SETMAP,     /* (jcol, num, &nextlu)        dynamic mode: slot [nextlu,nextlu+num) for H-supernode jcol */
+    VE_COL_SUPER       /* (pnum, jcol, nsuper)        column jcol is about to be entered into supernode nsuper (supno, xsup_end) */
 };
 #endif
 '''
@@ -164,3 +165,6 @@ def main():
     print("hooks inserted")
 
 main()
+
+# commit ac1395a (conformance replay of Engine S): in p?gstrf_column_dfs.c, before `supno[jcol] = nsuper;`
+#     SLU_MT_VEV(VE_COL_SUPER, pnum, jcol, nsuper);
